@@ -185,6 +185,29 @@ func registerBig(vm *VM) {
 	}
 	divmod("Div", false)
 	divmod("Mod", true)
+	I["(*math/big.Int).Exp"] = func(vm *VM, _ *frame, a []Value) Value {
+		z := vm.bigPtr(a[0], "Exp")
+		x := vm.bigGet(a[1], "Exp")
+		y := vm.bigGet(a[2], "Exp")
+		if mp, _ := a[3].(*Value); mp != nil {
+			mt := vm.bigGet(a[3], "Exp")
+			if mt.Op != smt.OpIntConst || mt.K.Sign() != 0 {
+				vmErr("big.Int.Exp with a modulus is not modelled")
+			}
+		}
+		if x.Op != smt.OpIntConst || y.Op != smt.OpIntConst {
+			vmErr("big.Int.Exp on symbolic operands")
+		}
+		if y.K.Sign() <= 0 {
+			vm.store(z, BigVal{smt.Int64(1)})
+			return z
+		}
+		if y.K.BitLen() > 16 {
+			vmErr("big.Int.Exp exponent too large")
+		}
+		vm.store(z, BigVal{smt.Int(new(big.Int).Exp(x.K, y.K, nil))})
+		return z
+	}
 	I["(*math/big.Int).Neg"] = func(vm *VM, _ *frame, a []Value) Value {
 		z := vm.bigPtr(a[0], "Neg")
 		vm.store(z, BigVal{smt.Neg(vm.bigGet(a[1], "Neg"))})
